@@ -106,7 +106,7 @@ def run_client_cuts(ctx):
     big = max(r["traces"], key=os.path.getsize)
     lib.self_test(ctx, TRACE[0], TRACE[1], big, differs_under_cut, name="client: header value differs under one fragmentation", ncases=40)
     cnt = _event_counts(r["traces"], ["Deliver", "Returned"])
-    return {"client_cases": r["cases"], "client_scripts_small": r["scripts_small"], "client_scripts_big": r["scripts_big"],
+    return {"cases": r["cases"], "client_cases": r["cases"], "client_scripts_small": r["scripts_small"], "client_scripts_big": r["scripts_big"],
             "client_socket_reads": cnt["Deliver"], "client_returns": cnt["Returned"],
             "rejected": sum(len(b) for _, b in r["res"])}
 
